@@ -655,14 +655,25 @@ func ZZ_C05_subscribe() {
 	if argDefault {
 		arg.DefaultValue = ty.def
 	}
+	// the source is a channel carrying one event: the event's execution coerces the
+	// variables again and must hand the resolver the same arguments
+	var resolveArgs map[string]interface{}
+	resolveCalls := 0
 	sub := NewObject(ObjectConfig{Name: "Subscription", Fields: Fields{
 		"f": &Field{Type: String, Args: FieldConfigArgument{"v": arg},
 			Subscribe: func(p ResolveParams) (interface{}, error) {
 				rec.calls++
 				rec.args = p.Args
-				return "once", nil
+				src := make(chan interface{}, 1)
+				src <- "ev"
+				close(src)
+				return src, nil
 			},
-			Resolve: func(p ResolveParams) (interface{}, error) { return "r", nil }}}})
+			Resolve: func(p ResolveParams) (interface{}, error) {
+				resolveCalls++
+				resolveArgs = p.Args
+				return "r", nil
+			}}}})
 	q := NewObject(ObjectConfig{Name: "Query", Fields: Fields{"a": &Field{Type: String}}})
 	schema, err := NewSchema(SchemaConfig{Query: q, Subscription: sub})
 	zzAssert(err == nil, "schema")
@@ -675,5 +686,9 @@ func ZZ_C05_subscribe() {
 	zzAssert(r != nil && len(r.Errors) == 0, "subscription failed for a conformant variable value")
 	zzAssert(rec.calls == 1, "Subscribe not called exactly once")
 	zzAssert(zzC05Eq(rec.args, zzC05ExpectArgs(want, ty, argDefault)), "Subscribe received arguments that differ from the coerced value")
+	zzAssert(resolveCalls == 1, "the event was not executed exactly once")
+	zzAssert(zzC05Eq(resolveArgs, zzC05ExpectArgs(want, ty, argDefault)), "the event's resolver received arguments that differ from the coerced value")
+	d, _ := r.Data.(map[string]interface{})
+	zzAssert(d != nil && d["f"] == "r", "event result")
 	zzCover("end")
 }
